@@ -2,57 +2,143 @@
 C05 — Results do not depend on read block sizes or on the byte source.
 
 Every format reader and read filter of libarchive obtains archive bytes only
-through `__archive_read_filter_ahead` / `__archive_read_filter_consume`
-(model: `LA.RA`, file LA/Model/ReadAhead.lean).  The theorems below say that
-what any client of that interface can observe is a function of the byte
-stream alone: not of how the read callback cut it into blocks, and not of
-whether (or how eagerly) a well-behaved skip callback is offered.
+through `__archive_read_filter_ahead` / `__archive_read_filter_consume` /
+`__archive_read_filter_seek` (model: `LA.RA`, file LA/Model/ReadAhead.lean).
+The theorems below say that what any client of that interface can observe is a
+function of the byte stream alone: not of how the read callback cut it into
+blocks (before or after a seek), not of whether (or how eagerly) a well-behaved
+skip callback is offered, and not of how the bytes are spread over the data
+nodes of a multivolume set.
 Helper lemmas: LA/Lemmas/ReadAhead*.lean.
+
+What is excluded, by name:
+* `NoSeekSkip`: a source with a seek callback but no skip callback (the seeker branch of
+  `client_skip_proxy` compares a node-relative offset with the stream position; open
+  finding "skip-by-seek");
+* `SpecSafe`: the client does not read between a seek that was refused for a target
+  outside the stream and the next successful seek (`__archive_read_filter_seek` has then
+  already moved the client but not reset the filter; open finding "seek-failure-desync",
+  `failed_seek_leaves_stream_false` in C08).
 -/
-import LA.Lemmas.ReadAheadRefine
+import LA.Lemmas.ReadAheadSeekOpen
+import LA.Lemmas.ReadAheadSeekAsFound
 namespace LA.C05
 open LA.RA
 
-/-- A client of the peek/consume interface: it may look at the first `min` bytes
+/-- A client of the peek/consume/seek interface: it may look at the first `min` bytes
 of the window (`min ≤ 2^62`; the C would fail the allocation long before) and
 choose its next step from everything it has seen so far. -/
 inductive Prog (α : Type) where
   | ret (a : α)
   | ahead (min : Nat) (h : min ≤ 2 ^ 62) (k : Obs → Prog α)
   | consume (n : Int) (k : Int → Prog α)
+  | seek (off : Int) (w : Whence) (k : Int → Prog α)
 
 /-- Run a client against the implementation model. -/
 def runImpl {α : Type} : Prog α → State → α
   | .ret a, _ => a
   | .ahead min _ k, s => runImpl (k (obsOf min (ahead s min).1)) (ahead s min).2
   | .consume n k, s => runImpl (k (consume s n).1) (consume s n).2
+  | .seek off w k, s => runImpl (k (RA.seek s off w).1) (RA.seek s off w).2
 
-/-- Run a client against the abstract stream. -/
-def runSpec {α : Type} : Prog α → Spec → α
+/-- Run a client against the abstract stream (`SSpec`: all bytes + position). -/
+def runSpec {α : Type} : Prog α → SSpec → α
   | .ret a, _ => a
-  | .ahead min _ k, sp => runSpec (k (specAhead sp min).1) (specAhead sp min).2
-  | .consume n k, sp => runSpec (k (specConsume sp n).1) (specConsume sp n).2
+  | .ahead min _ k, sp => runSpec (k (sspecAhead sp min).1) (sspecAhead sp min).2
+  | .consume n k, sp => runSpec (k (sspecConsume sp n).1) (sspecConsume sp n).2
+  | .seek off w k, sp => runSpec (k (specSeek sp off w).1) (specSeek sp off w).2
 
-/-- The implementation model refines the abstract stream for every client,
-from every state satisfying the representation invariant. -/
-theorem run_refines {α : Type} (p : Prog α) (s : State) (hi : Inv s) (hsk : SkipsOk s.skips) :
-    runImpl p s = runSpec p (absN s) := by
-  induction p generalizing s with
+/-- (Boolean form of `SpecSafe`, so that it can be evaluated.) -/
+def specSafeB {α : Type} : Prog α → SSpec → Bool
+  | .ret _, _ => true
+  | .ahead min _ k, sp => !sp.lost && specSafeB (k (sspecAhead sp min).1) (sspecAhead sp min).2
+  | .consume n k, sp => !sp.lost && specSafeB (k (sspecConsume sp n).1) (sspecConsume sp n).2
+  | .seek off w k, sp => specSafeB (k (specSeek sp off w).1) (specSeek sp off w).2
+
+/-- The client does not read while the position is `lost` (between a seek refused for a target
+outside the stream and the next successful seek).  Seeking again is always allowed. -/
+def SpecSafe {α : Type} (p : Prog α) (sp : SSpec) : Prop := specSafeB p sp = true
+
+theorem specSafe_ahead {α : Type} {min : Nat} {h : min ≤ 2 ^ 62} {k : Obs → Prog α} {sp : SSpec}
+    (hs : SpecSafe (.ahead min h k) sp) :
+    sp.lost = false ∧ SpecSafe (k (sspecAhead sp min).1) (sspecAhead sp min).2 := by
+  simpa [SpecSafe, specSafeB] using hs
+
+theorem specSafe_consume {α : Type} {n : Int} {k : Int → Prog α} {sp : SSpec}
+    (hs : SpecSafe (.consume n k) sp) :
+    sp.lost = false ∧ SpecSafe (k (sspecConsume sp n).1) (sspecConsume sp n).2 := by
+  simpa [SpecSafe, specSafeB] using hs
+
+/-- Without seek capability nothing is ever lost: every client is safe. -/
+theorem specSafe_of_noseek {α : Type} (p : Prog α) (sp : SSpec) (hc : sp.canSeek = false) (hl : sp.lost = false) :
+    SpecSafe p sp := by
+  induction p generalizing sp with
   | ret a => rfl
   | ahead min h k ih =>
-    obtain ⟨i1, i2, i3, i4, _⟩ := ahead_refines s min hi h
-    simp only [runImpl, runSpec]
-    rw [i3, ← i4]
-    exact ih _ _ i1 (by rw [i2]; exact hsk)
+    have := ih (sspecAhead sp min).1 (sspecAhead sp min).2 hc hl
+    simp only [SpecSafe, specSafeB, hl] at this ⊢
+    simpa using this
   | consume n k ih =>
-    obtain ⟨i1, i2, i3⟩ := consume_refines s n hi hsk
-    simp only [runImpl, runSpec]
-    rw [i2, ← i3]
-    exact ih _ _ i1 (consume_skips s n hsk)
+    have := ih (sspecConsume sp n).1 (sspecConsume sp n).2 hc hl
+    simp only [SpecSafe, specSafeB, hl] at this ⊢
+    simpa using this
+  | seek off w k ih =>
+    have : specSeek sp off w = (if sp.fatal then (-30, sp) else (-25, sp)) := by
+      unfold specSeek; simp [hc]
+    simp only [SpecSafe, specSafeB, this]
+    split <;> exact ih _ _ hc hl
 
-/-- Freshly opened filter over a block script. -/
+/-- The implementation model refines the abstract stream for every client, from every pair of
+coupled states. -/
+theorem run_rel {α : Type} (p : Prog α) (s : State) (sp : SSpec) (hr : Rel s sp) (hsk : SkipsOk s.skips)
+    (hns : NoSeekSkip s) (hq : SeeksOk s.seeks) (hsafe : SpecSafe p sp) :
+    runImpl p s = runSpec p sp := by
+  induction p generalizing s sp with
+  | ret a => rfl
+  | ahead min h k ih =>
+    obtain ⟨hl, hsafe'⟩ := specSafe_ahead hsafe
+    obtain ⟨i1, i2⟩ := ahead_rel s sp min hr hl h
+    have hi := (hr.sync hl).1
+    simp only [runImpl, runSpec]
+    rw [i2]
+    exact ih _ _ _ i1 (by rw [(ahead_refines s min hi h).2.1]; exact hsk)
+      (noSeekSkip_of_static (ahead_static s min) hns) (by rw [ahead_seeks]; exact hq) hsafe'
+  | consume n k ih =>
+    obtain ⟨hl, hsafe'⟩ := specSafe_consume hsafe
+    obtain ⟨i1, i2⟩ := consume_rel s sp n hr hl hsk hns
+    simp only [runImpl, runSpec]
+    rw [i2]
+    exact ih _ _ _ i1 (consume_skips s n hsk) (noSeekSkip_of_static (consume_static s n).1 hns)
+      ((consume_static s n).2 hq) hsafe'
+  | seek off w k ih =>
+    obtain ⟨i1, i2⟩ := seek_rel s sp off w hr hq
+    simp only [runImpl, runSpec]
+    rw [i2]
+    have hfr : (RA.seek s off w).2.skips = s.skips ∧ NoSeekSkip (RA.seek s off w).2 := seek_keeps s sp off w hr hns
+    exact ih _ _ _ i1 (by rw [hfr.1]; exact hsk) hfr.2 (seek_seeksOk s off w hr hq) hsafe
+
+/-- **Refinement for every client**, from every state satisfying the representation invariant:
+running the client on the C-shaped state equals running it on the abstract stream. -/
+theorem run_refines {α : Type} (p : Prog α) (s : State) (hi : Inv s) (hsk : SkipsOk s.skips)
+    (hns : NoSeekSkip s) (hq : SeeksOk s.seeks) (hr : SeekReady s) (hsafe : SpecSafe p (absStream s)) :
+    runImpl p s = runSpec p (absStream s) :=
+  run_rel p s (absStream s) (rel_absStream s hi hr) hsk hns hq hsafe
+
+/-- Freshly opened filter over a block script (no seek callback). -/
 def open_ (src : List (List Nat)) (t : Term) (skips : List Int) (canSkip : Bool) : State :=
   { src := src, term := t, skips := skips, canSkip := canSkip }
+
+/-- A multi-volume set: the first data node's blocks and the following nodes' blocks. -/
+def openNodes (src : List (List Nat)) (later : List (List (List Nat))) (t : Term) (skips : List Int)
+    (canSkip : Bool) : State :=
+  { src := src, later := later, term := t, skips := skips, canSkip := canSkip }
+
+/-- Sequential sources (any `Prog`, seeks included: they are refused with ARCHIVE_FAILED and
+change nothing). -/
+theorem run_refines_sequential {α : Type} (p : Prog α) (s : State) (hi : Inv s) (hsk : SkipsOk s.skips)
+    (hns : NoSeekSkip s) (hcs : s.canSeek = false) (hq : SeeksOk s.seeks) :
+    runImpl p s = runSpec p (absStream s) :=
+  run_refines p s hi hsk hns hq (seekReady_of_noseek s hcs) (specSafe_of_noseek p _ hcs rfl)
 
 /-- **C05, partition independence.**  Two sources that deliver the same bytes
 (in blocks of any sizes, down to one byte at a time) and end the same way give
@@ -62,16 +148,13 @@ theorem partition_independent {α : Type} (p : Prog α) (src1 src2 : List (List 
     (h1 : SrcOk src1) (h2 : SrcOk src2) (hcat : src1.flatten = src2.flatten)
     (hk1 : SkipsOk sk1) (hk2 : SkipsOk sk2) :
     runImpl p (open_ src1 t sk1 cs1) = runImpl p (open_ src2 t sk2 cs2) := by
-  have e1 := run_refines p (open_ src1 t sk1 cs1) (inv_init src1 t sk1 cs1 h1) hk1
-  have e2 := run_refines p (open_ src2 t sk2 cs2) (inv_init src2 t sk2 cs2 h2) hk2
+  have e1 := run_refines_sequential p (open_ src1 t sk1 cs1) (inv_init src1 t sk1 cs1 h1) hk1 (Or.inl rfl) rfl
+    (by intro a ha; cases ha)
+  have e2 := run_refines_sequential p (open_ src2 t sk2 cs2) (inv_init src2 t sk2 cs2 h2) hk2 (Or.inl rfl) rfl
+    (by intro a ha; cases ha)
   rw [e1, e2]
   congr 1
-  simp [absN, open_, remaining, hcat]
-
-/-- A multi-volume set: the first data node's blocks and the following nodes' blocks. -/
-def openNodes (src : List (List Nat)) (later : List (List (List Nat))) (t : Term) (skips : List Int)
-    (canSkip : Bool) : State :=
-  { src := src, later := later, term := t, skips := skips, canSkip := canSkip }
+  simp [absStream, open_, remaining, hcat]
 
 /-- **C05, multi-volume sets.**  Several sources opened as one multi-volume set
 (`archive_read_open_filenames`, `archive_read_append_callback_data`), each cut into
@@ -84,11 +167,13 @@ theorem multivolume_concat {α : Type} (p : Prog α) (src1 : List (List Nat)) (l
     (hcat : src1.flatten ++ later1.flatten.flatten = src2.flatten ++ later2.flatten.flatten)
     (hk1 : SkipsOk sk1) (hk2 : SkipsOk sk2) :
     runImpl p (openNodes src1 later1 t sk1 cs1) = runImpl p (openNodes src2 later2 t sk2 cs2) := by
-  have e1 := run_refines p (openNodes src1 later1 t sk1 cs1) (inv_init_nodes src1 later1 t sk1 cs1 h1 hl1) hk1
-  have e2 := run_refines p (openNodes src2 later2 t sk2 cs2) (inv_init_nodes src2 later2 t sk2 cs2 h2 hl2) hk2
+  have e1 := run_refines_sequential p (openNodes src1 later1 t sk1 cs1) (inv_init_nodes src1 later1 t sk1 cs1 h1 hl1)
+    hk1 (Or.inl rfl) rfl (by intro a ha; cases ha)
+  have e2 := run_refines_sequential p (openNodes src2 later2 t sk2 cs2) (inv_init_nodes src2 later2 t sk2 cs2 h2 hl2)
+    hk2 (Or.inl rfl) rfl (by intro a ha; cases ha)
   rw [e1, e2]
   congr 1
-  simp [absN, openNodes, remaining, hcat]
+  simp [absStream, openNodes, remaining, hcat]
 
 /-- Non-vacuity: a header split over three volumes against the single-volume source. -/
 example : SrcOk [[1, 2]] ∧ (∀ n ∈ [[[3]], [[4, 5]]], SrcOk n) ∧ SrcOk [[1, 2, 3, 4, 5]] ∧
@@ -102,6 +187,168 @@ callback and one without, satisfy the hypotheses. -/
 example : SrcOk [[1, 2], [3, 4, 5]] ∧ SrcOk [[1], [2], [3], [4], [5]] ∧
     [[1, 2], [3, 4, 5]].flatten = [[1], [2], [3], [4], [5]].flatten ∧ SkipsOk [3, 0] ∧ SkipsOk [] := by
   refine ⟨?_, ?_, by decide, ?_, ?_⟩ <;> simp [SrcOk, SkipsOk]
+
+/-! ### Seekable sources -/
+
+/-- **C05 with seeks: partition, re-blocking and volume independence.**  Two seekable sources
+that hold the same bytes — spread over any number of data nodes of any sizes (empty ones
+included), each delivering its bytes in blocks cut by any function of (number of seeks so far,
+node, offset), with or without a skip callback that answers anything legal — give every client
+the same results, also when it seeks: SEEK_SET / SEEK_CUR / SEEK_END, across node borders in
+both directions, to targets inside or outside the stream.  (The client must not read between a
+refused out-of-range seek and the next good one: `SpecSafe`.) -/
+theorem partition_independent_seek {α : Type} (p : Prog α) (nodes1 nodes2 : List (List Nat))
+    (blk1 blk2 : Nat → Nat → Nat → Nat) (t : Term) (sk1 sk2 : List Int) (cs1 cs2 : Bool)
+    (hn1 : nodes1 ≠ []) (hn2 : nodes2 ≠ []) (hcat : nodes1.flatten = nodes2.flatten)
+    (hk1 : SkipsOk sk1) (hk2 : SkipsOk sk2)
+    (hsafe : SpecSafe p ⟨nodes1.flatten, 0, t, false, true, false⟩) :
+    runImpl p (openSeekable nodes1 blk1 t sk1 cs1) = runImpl p (openSeekable nodes2 blk2 t sk2 cs2) := by
+  have e1 := run_refines p (openSeekable nodes1 blk1 t sk1 cs1) (inv_open _ _ _ _ _) hk1 (Or.inl rfl)
+    (by intro a ha; cases ha) (seekReady_open _ _ _ _ _ hn1) (by rw [absStream_open]; exact hsafe)
+  have e2 := run_refines p (openSeekable nodes2 blk2 t sk2 cs2) (inv_open _ _ _ _ _) hk2 (Or.inl rfl)
+    (by intro a ha; cases ha) (seekReady_open _ _ _ _ _ hn2) (by rw [absStream_open, ← hcat]; exact hsafe)
+  rw [e1, e2, absStream_open, absStream_open, hcat]
+
+/-- **C05, multi-volume sets with seeks**: a seekable multi-volume set behaves as the single
+seekable source holding the concatenation. -/
+theorem multivolume_concat_seek {α : Type} (p : Prog α) (nodes : List (List Nat))
+    (blk1 blk2 : Nat → Nat → Nat → Nat) (t : Term) (sk1 sk2 : List Int) (cs1 cs2 : Bool)
+    (hn : nodes ≠ []) (hk1 : SkipsOk sk1) (hk2 : SkipsOk sk2)
+    (hsafe : SpecSafe p ⟨nodes.flatten, 0, t, false, true, false⟩) :
+    runImpl p (openSeekable nodes blk1 t sk1 cs1) = runImpl p (openSeekable [nodes.flatten] blk2 t sk2 cs2) :=
+  partition_independent_seek p nodes [nodes.flatten] blk1 blk2 t sk1 sk2 cs1 cs2 hn (by simp) (by simp) hk1 hk2 hsafe
+
+/-- A client that peeks, seeks to the last byte of the first volume (a node border), reads
+across the border, seeks from the end and backwards over two borders. -/
+def demoProg : Prog (List Obs) :=
+  .ahead 2 (by decide) fun o1 => .seek 2 .set fun _ => .ahead 3 (by decide) fun o2 =>
+  .seek (-1) .end_ fun _ => .ahead 1 (by decide) fun o3 => .seek (-6) .cur fun _ =>
+  .ahead 4 (by decide) fun o4 => .ret [o1, o2, o3, o4]
+
+/-- Non-vacuity of `partition_independent_seek` / `multivolume_concat_seek`: three nodes (one of
+them empty) against one node, different block sizes, a client that seeks across the borders;
+its hypotheses hold (`SpecSafe` is decided by running the client on the abstract stream). -/
+example : ([[1, 2, 3], [], [4, 5, 6, 7]] : List (List Nat)) ≠ [] ∧
+    ([[1, 2, 3], [], [4, 5, 6, 7]] : List (List Nat)).flatten = ([[1, 2, 3, 4, 5, 6, 7]] : List (List Nat)).flatten ∧
+    SkipsOk [2, 0] ∧ SpecSafe demoProg ⟨[1, 2, 3, 4, 5, 6, 7], 0, .eof, false, true, false⟩ ∧
+    runSpec demoProg ⟨[1, 2, 3, 4, 5, 6, 7], 0, .eof, false, true, false⟩ =
+      [.ok [1, 2], .ok [3, 4, 5], .ok [7], .ok [1, 2, 3, 4]] := by
+  refine ⟨by simp, by decide, by simp [SkipsOk], by unfold SpecSafe; decide, by decide⟩
+
+/-- Non-vacuity on the C-shaped state itself: the same client on the three-node source with
+2-byte blocks and a skip callback — the theorem applies and gives the result. -/
+example : runImpl demoProg (openSeekable [[1, 2, 3], [], [4, 5, 6, 7]] (fun _ _ _ => 2) .eof [2, 0] true) =
+    [.ok [1, 2], .ok [3, 4, 5], .ok [7], .ok [1, 2, 3, 4]] := by
+  rw [run_refines demoProg _ (inv_open _ _ _ _ _) (by simp [openSeekable, seekable0, place, SkipsOk]) (Or.inl rfl)
+    (by intro a ha; cases ha) (seekReady_open _ _ _ _ _ (by simp)) (by rw [absStream_open]; unfold SpecSafe; decide),
+    absStream_open]
+  decide
+
+/-- **`__archive_read_filter_seek` refines "position := target, if 0 ≤ target ≤ length; else
+error"** (seek callback behaving, filter not failed).  On success the representation invariant
+holds again, the `dataset[]` bookkeeping stays sound, end-of-file is forgotten, and what
+`ahead`/`consume` will deliver is exactly the stream from the target on; a refused seek leaves
+`position` alone. -/
+theorem seek_refines (s : State) (off : Int) (w : Whence) (hi : Inv s) (hc : CacheOk s) (hcs : s.canSeek = true)
+    (hs : s.hasSeeker = true) (hf : s.fatal = false) (hq : SeeksOk s.seeks) :
+    match targetOf s off w with
+    | none => RA.seek s off w = (-30, s)
+    | some t =>
+      if 0 ≤ t ∧ t ≤ ((allBytes s).length : Int) then
+        (RA.seek s off w).1 = t ∧ Inv (RA.seek s off w).2 ∧ CacheOk (RA.seek s off w).2 ∧
+        (RA.seek s off w).2.position = t.toNat ∧ remaining (RA.seek s off w).2 = (allBytes s).drop t.toNat ∧
+        (RA.seek s off w).2.eof = false ∧ (RA.seek s off w).2.fatal = false ∧
+        allBytes (RA.seek s off w).2 = allBytes s
+      else
+        (RA.seek s off w).1 = -30 ∧ (RA.seek s off w).2.position = s.position ∧
+        (RA.seek s off w).2.fatal = false ∧ CacheOk (RA.seek s off w).2 := by
+  have h := seek_spec s off w hc hs hcs hf hi.bufLt
+  cases ht : targetOf s off w with
+  | none => rw [ht] at h; exact h
+  | some t =>
+    rw [ht] at h
+    simp only [] at h ⊢
+    rcases h with ⟨p1, p2, p3⟩ | ⟨_, p⟩
+    · obtain ⟨_, p4⟩ := p3 hq
+      by_cases hin : 0 ≤ t ∧ t ≤ ((allBytes s).length : Int)
+      · rw [if_pos hin] at p4 ⊢
+        rcases p1 with ok | bad
+        · obtain ⟨o1, o2, o3, o4, o5, o6, o7⟩ := ok
+          rw [p4] at o4 o5
+          exact ⟨p4, o2, o3, o4, o5, o6, by rw [o7.fatal]; exact hf, by unfold allBytes; rw [o7.nodes]⟩
+        · exfalso; have := bad.1; omega
+      · rw [if_neg hin] at p4 ⊢
+        rcases p1 with ok | bad
+        · exfalso; have := ok.1; omega
+        · exact ⟨p4, bad.2.1.position, by rw [bad.2.1.fatal]; exact hf, bad.2.2⟩
+    · exact absurd hq p
+
+/-- After a successful seek to `t`, a peek of `min` bytes that the stream still holds returns
+exactly the bytes at offsets `t .. t+min`. -/
+theorem ahead_after_seek (s : State) (off : Int) (w : Whence) (t : Int) (min : Nat) (hi : Inv s) (hc : CacheOk s)
+    (hcs : s.canSeek = true) (hs : s.hasSeeker = true) (hf : s.fatal = false) (hq : SeeksOk s.seeks)
+    (ht : targetOf s off w = some t) (hin : 0 ≤ t ∧ t ≤ ((allBytes s).length : Int))
+    (hmin : min ≤ 2 ^ 62) (hle : t.toNat + min ≤ (allBytes s).length) :
+    obsOf min (ahead (RA.seek s off w).2 min).1 = .ok (((allBytes s).drop t.toNat).take min) := by
+  have h := seek_refines s off w hi hc hcs hs hf hq
+  rw [ht] at h
+  simp only [hin, and_self, if_true] at h
+  obtain ⟨_, h2, _, _, h5, _, h7, _⟩ := h
+  have := (ahead_refines (RA.seek s off w).2 min h2 hmin).2.2.1
+  rw [this]
+  simp only [specAhead, absN, h7, Bool.false_eq_true, if_false, h5]
+  have hm : min ≤ (allBytes s).length - t.toNat := by omega
+  simp [hm]
+
+/-- Non-vacuity of `seek_refines`: the freshly opened three-node source satisfies its
+hypotheses (any multi-node source does). -/
+example : Inv (openSeekable [[1, 2, 3], [], [4, 5, 6, 7]] (fun _ _ _ => 2) .eof [] true) ∧
+    CacheOk (openSeekable [[1, 2, 3], [], [4, 5, 6, 7]] (fun _ _ _ => 2) .eof [] true) ∧
+    (openSeekable [[1, 2, 3], [], [4, 5, 6, 7]] (fun _ _ _ => 2) .eof [] true).canSeek = true ∧
+    SeeksOk (openSeekable [[1, 2, 3], [], [4, 5, 6, 7]] (fun _ _ _ => 2) .eof [] true).seeks ∧
+    targetOf (openSeekable [[1, 2, 3], [], [4, 5, 6, 7]] (fun _ _ _ => 2) .eof [] true) (-5) .end_ = some 2 :=
+  ⟨inv_open _ _ _ _ _, cacheOk_open _ _ _ _ _ (by simp), rfl, (by intro a ha; cases ha), (by decide)⟩
+
+/-! ### The code as it was found (three defects, repaired by `fix:` commits) -/
+
+/-- Volumes of 5 and 3 bytes, freshly opened. -/
+def twoVolumes : State := openSeekable [[1, 2, 3, 4, 5], [6, 7, 8]] (fun _ _ _ => 2) .eof [] true
+
+/-- The property `seek_refines` demands of SEEK_SET, for the code as found. -/
+def SeekSetAsFoundRefines : Prop :=
+  ∀ (nodes : List (List Nat)) (blk : Nat → Nat → Nat → Nat) (t : Int), nodes ≠ [] →
+    0 ≤ t → t ≤ (nodes.flatten.length : Int) →
+    (AsFound.seekSet (openSeekable nodes blk .eof [] true) t).1 = t
+
+/-- **Finding (repaired): seeking to the last byte of a volume of a multivolume set failed.**
+Offset 4 of volumes of 5 and 3 bytes lies inside the stream; the code as found answered
+ARCHIVE_FATAL (-30), the repaired code positions the stream there. -/
+theorem seek_set_as_found_fails_at_volume_border :
+    ¬ SeekSetAsFoundRefines ∧ (AsFound.seekSet twoVolumes 4).1 = -30 ∧
+    (RA.seek twoVolumes 4 .set).1 = 4 ∧ remaining (RA.seek twoVolumes 4 .set).2 = [5, 6, 7, 8] := by
+  refine ⟨fun h => ?_, by decide +kernel, by decide +kernel, by decide +kernel⟩
+  have := h [[1, 2, 3, 4, 5], [6, 7, 8]] (fun _ _ _ => 2) 4 (by simp) (by decide) (by decide)
+  revert this
+  decide +kernel
+
+/-- The property demanded of SEEK_END, for the code as found: a target outside the stream is
+refused. -/
+def SeekEndAsFoundRefuses : Prop :=
+  ∀ (nodes : List (List Nat)) (blk : Nat → Nat → Nat → Nat) (off : Int), nodes ≠ [] →
+    (off + (nodes.flatten.length : Int) < 0 ∨ 0 < off) →
+    (AsFound.seekEnd (openSeekable nodes blk .eof [] true) off).1 < 0
+
+/-- **Finding (repaired): SEEK_END to a target outside the stream was not refused.**  Nine bytes
+before the end of the 8-byte stream is position -1: the code as found returned position 4 (the
+target plus the size of the first volume); one byte behind the end it returned position 9.  The
+repaired code refuses both. -/
+theorem seek_end_as_found_lands_outside :
+    ¬ SeekEndAsFoundRefuses ∧ (AsFound.seekEnd twoVolumes (-9)).1 = 4 ∧ (AsFound.seekEnd twoVolumes 1).1 = 9 ∧
+    (RA.seek twoVolumes (-9) .end_).1 = -30 ∧ (RA.seek twoVolumes 1 .end_).1 = -30 := by
+  refine ⟨fun h => ?_, by decide +kernel, by decide +kernel, by decide +kernel, by decide +kernel⟩
+  have := h [[1, 2, 3, 4, 5], [6, 7, 8]] (fun _ _ _ => 2) (-9) (by simp) (by decide)
+  revert this
+  decide +kernel
 
 /-- The window handed out is always a prefix of the unconsumed stream, at least
 `min` long: a parser never sees bytes that are not the archive's. -/
@@ -119,11 +366,11 @@ theorem window_is_stream_prefix (s : State) (min : Nat) (hi : Inv s) (hmin : min
 
 /-- `consume` moves the stream position by exactly the amount it reports. -/
 theorem consume_exact (s : State) (n : Nat) (hi : Inv s) (hf : s.fatal = false) (hn : 0 < n)
-    (hle : n ≤ (remaining s).length) (hsk : SkipsOk s.skips) :
+    (hle : n ≤ (remaining s).length) (hsk : SkipsOk s.skips) (hns : NoSeekSkip s) :
     (consume s n).1 = n ∧ remaining (consume s n).2 = (remaining s).drop n ∧
     (consume s n).2.position = s.position + n := by
-  have hc := consume_refines s n hi hsk
-  obtain ⟨g1, g2, _, g4⟩ := advance_spec s n hi hf hn
+  have hc := consume_refines s n hi hsk hns
+  obtain ⟨g1, g2, _, g4⟩ := advance_spec s n hi hf hn hns
   unfold consume at *
   have h1 : ¬ ((n : Int) < 0) := by omega
   have h2 : ¬ ((n : Int) = 0) := by omega
